@@ -38,10 +38,11 @@ Record wst := mkWst {
   x_fm : option N;              (* first_order_stats_meaning *)
   x_dm : option N;              (* difference_stats_meaning *)
   x_attrs : list attr;
-  x_known : list N              (* keys of index_to_node *)
+  x_known : list N;             (* keys of index_to_node *)
+  x_def : bool                  (* defining_new_refval: between 203YYY and 203255 (fix: wiring follows the coder) *)
 }.
 
-Definition wst0 : wst := mkWst 0 [] 0 false false false None None None [] [].
+Definition wst0 : wst := mkWst 0 [] 0 false false false None None None [] [] false.
 
 Section Wire.
 (* the flat lists the wiring works over *)
@@ -59,24 +60,25 @@ Definition link_of (idx : N) : option N :=
 Definition next_idx (s : wst) : result (N * wst) :=
   if (ndesc <=? x_next s)%N then Err EIndex
   else Ok (x_next s, mkWst (x_next s + 1) (x_assoc s) (x_dnp s) (x_qa s) (x_w1 s) (x_wd s)
-                           (x_am s) (x_fm s) (x_dm s) (x_attrs s) (x_known s)).
+                           (x_am s) (x_fm s) (x_dm s) (x_attrs s) (x_known s) (x_def s)).
 
 Definition register (i : N) (s : wst) : wst :=
   mkWst (x_next s) (x_assoc s) (x_dnp s) (x_qa s) (x_w1 s) (x_wd s) (x_am s) (x_fm s) (x_dm s)
-        (x_attrs s) (i :: x_known s).
+        (x_attrs s) (i :: x_known s) (x_def s).
 
 Definition add_attr (owner a : N) (is_assoc : bool) (s : wst) : wst :=
   mkWst (x_next s) (x_assoc s) (x_dnp s) (x_qa s) (x_w1 s) (x_wd s) (x_am s) (x_fm s) (x_dm s)
-        (x_attrs s ++ [(owner, a, is_assoc)]) (x_known s).
+        (x_attrs s ++ [(owner, a, is_assoc)]) (x_known s) (x_def s).
 
-Definition set_assoc_list l s := mkWst (x_next s) l (x_dnp s) (x_qa s) (x_w1 s) (x_wd s) (x_am s) (x_fm s) (x_dm s) (x_attrs s) (x_known s).
-Definition set_xdnp v s := mkWst (x_next s) (x_assoc s) v (x_qa s) (x_w1 s) (x_wd s) (x_am s) (x_fm s) (x_dm s) (x_attrs s) (x_known s).
-Definition set_xqa v s := mkWst (x_next s) (x_assoc s) (x_dnp s) v (x_w1 s) (x_wd s) (x_am s) (x_fm s) (x_dm s) (x_attrs s) (x_known s).
-Definition set_xw1 v s := mkWst (x_next s) (x_assoc s) (x_dnp s) (x_qa s) v (x_wd s) (x_am s) (x_fm s) (x_dm s) (x_attrs s) (x_known s).
-Definition set_xwd v s := mkWst (x_next s) (x_assoc s) (x_dnp s) (x_qa s) (x_w1 s) v (x_am s) (x_fm s) (x_dm s) (x_attrs s) (x_known s).
-Definition set_xam v s := mkWst (x_next s) (x_assoc s) (x_dnp s) (x_qa s) (x_w1 s) (x_wd s) v (x_fm s) (x_dm s) (x_attrs s) (x_known s).
-Definition set_xfm v s := mkWst (x_next s) (x_assoc s) (x_dnp s) (x_qa s) (x_w1 s) (x_wd s) (x_am s) v (x_dm s) (x_attrs s) (x_known s).
-Definition set_xdm v s := mkWst (x_next s) (x_assoc s) (x_dnp s) (x_qa s) (x_w1 s) (x_wd s) (x_am s) (x_fm s) v (x_attrs s) (x_known s).
+Definition set_assoc_list l s := mkWst (x_next s) l (x_dnp s) (x_qa s) (x_w1 s) (x_wd s) (x_am s) (x_fm s) (x_dm s) (x_attrs s) (x_known s) (x_def s).
+Definition set_xdnp v s := mkWst (x_next s) (x_assoc s) v (x_qa s) (x_w1 s) (x_wd s) (x_am s) (x_fm s) (x_dm s) (x_attrs s) (x_known s) (x_def s).
+Definition set_xqa v s := mkWst (x_next s) (x_assoc s) (x_dnp s) v (x_w1 s) (x_wd s) (x_am s) (x_fm s) (x_dm s) (x_attrs s) (x_known s) (x_def s).
+Definition set_xw1 v s := mkWst (x_next s) (x_assoc s) (x_dnp s) (x_qa s) v (x_wd s) (x_am s) (x_fm s) (x_dm s) (x_attrs s) (x_known s) (x_def s).
+Definition set_xwd v s := mkWst (x_next s) (x_assoc s) (x_dnp s) (x_qa s) (x_w1 s) v (x_am s) (x_fm s) (x_dm s) (x_attrs s) (x_known s) (x_def s).
+Definition set_xam v s := mkWst (x_next s) (x_assoc s) (x_dnp s) (x_qa s) (x_w1 s) (x_wd s) v (x_fm s) (x_dm s) (x_attrs s) (x_known s) (x_def s).
+Definition set_xfm v s := mkWst (x_next s) (x_assoc s) (x_dnp s) (x_qa s) (x_w1 s) (x_wd s) (x_am s) v (x_dm s) (x_attrs s) (x_known s) (x_def s).
+Definition set_xdef v s := mkWst (x_next s) (x_assoc s) (x_dnp s) (x_qa s) (x_w1 s) (x_wd s) (x_am s) (x_fm s) (x_dm s) (x_attrs s) (x_known s) v.
+Definition set_xdm v s := mkWst (x_next s) (x_assoc s) (x_dnp s) (x_qa s) (x_w1 s) (x_wd s) (x_am s) (x_fm s) v (x_attrs s) (x_known s) (x_def s).
 
 (* a new registered value node *)
 Definition value_node (s : wst) : result (N * wst) :=
@@ -133,8 +135,11 @@ Definition wire_operator (id : N) (s : wst) : result (wnode * wst) :=
   let code := (id / 1000)%N in
   let operand := Z.of_N (id mod 1000) in
   let plain s := let* (i, s1) := value_node s in Ok (WValue i, s1) in
-  if (code =? 201)%N || (code =? 202)%N || (code =? 203)%N || (code =? 206)%N || (code =? 207)%N || (code =? 208)%N
+  if (code =? 201)%N || (code =? 202)%N || (code =? 206)%N || (code =? 207)%N || (code =? 208)%N
   then Ok (WNoValue id, s)
+  else if (code =? 203)%N then
+    (* defining new reference values until 203255 / 203000 *)
+    Ok (WNoValue id, set_xdef (negb ((operand =? 0)%Z || (operand =? 255)%Z)) s)
   else if (code =? 204)%N then
     if (operand =? 0)%Z then
       match x_assoc s with
@@ -169,6 +174,9 @@ Definition count_of_value (v : option value) : result N :=
   | None => Err EIndex
   end.
 
+(* type(member) is ElementDescriptor *)
+Definition is_plain_elem (d : desc) : bool := match d with DElem _ => true | _ => false end.
+
 (* [acc] accumulates the member nodes of the enclosing node (self.decoded_nodes) *)
 Definition wres := (wnodes * wst)%type.
 
@@ -201,6 +209,10 @@ with wire_list (ms : descs) (a : wres) {struct ms} : result wres :=
       let skip := negb (x_dnp s =? 0)%Z && dnp_skips m in
       let s0 := if (x_dnp s =? 0)%Z then s else set_xdnp (x_dnp s - 1) s in
       if skip then wire_list rest (wnodes_app acc (WCons (WNoValue (desc_id m)) WNil), s0)
+      else if x_def s0 && is_plain_elem m then
+        (* a new reference value definition: one value node, no associated field, no attributes *)
+        let* (i, s1) := value_node s0 in
+        wire_list rest (wnodes_app acc (WCons (WValue i) WNil), s1)
       else
         let* (n, s1) := wire_one m s0 in
         wire_list rest (wnodes_app acc (WCons n WNil), s1)
